@@ -1,1 +1,183 @@
-/-! Property theorems for C10 (none yet). -/
+import MirVerif.Lemmas.TextIONormPrint
+/-!
+# Property C10 — textual MIR written by `MIR_output` reads back as the same module
+
+Model: `printText` (transcription of `MIR_output_op/_insn/_item/_module`, mir.c:2899-3185) and
+`scanText = finishScan ∘ elabStmts ∘ parseStmts ∘ lexAll` (transcription of `scan_token`,
+`scan_number`, `scan_string`, `MIR_scan_string`, mir.c:5944-6800, with the API effects the scanner
+triggers).  Both are tied to the C code on every run by `checks/c10.py` (byte-wise agreement of the
+writer, verdict-and-rewrite agreement of the scanner, on generated modules, free-form spellings,
+mutated texts and the run-time corpus).
+
+Main theorem `text_roundtrip`: for every list of modules satisfying the explicit decidable predicate
+`WF`, scanning the written text succeeds, yields the normal form `normText ms`, and that normal form
+is written as the very same text.  Every conjunct of `WF` that the proof needed is probed on the real
+code at the excluded point by the check (see `wfReport`); those where the real code really fails
+are the findings #3/#4/#5/#32/#34 and four new ones.
+
+What is *not* proved: nothing about the C library's `printf`/`strtod` beyond the per-literal
+condition `floatRT` inside `WF`; API-level validation (operand modes etc.) is outside the model.
+-/
+namespace TextIO
+
+/-! ## strings (`MIR_output_str` / `scan_string`) -/
+
+/-- For **every** byte string `s`, the scanner reads the written literal back as one string token
+holding `forceNul s`: `s` itself when `s` is empty or ends in NUL, otherwise `s` with a NUL appended
+(mir.c:6087-6088).  No condition on what follows the literal. -/
+theorem str_roundtrip (s : Str) (hs : ∀ c ∈ s, c.toNat < 256) (rest : List Char) :
+    lexOne (printStr s ++ rest) = .ok (.str (forceNul s), rest) :=
+  lexOne_printStr s hs rest
+
+/-- the NUL-termination condition is exactly what makes the string survive unchanged -/
+theorem str_roundtrip_exact (s : Str) : forceNul s = s ↔ (s = [] ∨ s.getLast? = some nulChar) := by
+  unfold forceNul
+  constructor
+  · intro h
+    by_cases hc : s ≠ [] ∧ s.getLast? ≠ some nulChar
+    · rw [if_pos hc] at h
+      have := congrArg List.length h
+      simp at this
+    · by_cases he : s = []
+      · exact Or.inl he
+      · exact Or.inr (by
+          by_cases hl : s.getLast? = some nulChar
+          · exact hl
+          · exact absurd ⟨he, hl⟩ hc)
+  · intro h
+    rw [if_neg]
+    rintro ⟨h1, h2⟩
+    rcases h with h | h
+    · exact h1 h
+    · exact h2 h
+
+/-- finding #5 as a theorem about the model: a string not ending in NUL comes back longer -/
+example : forceNul ['a'] = ['a', nulChar] := by decide
+example : ∀ c ∈ (['a', 'b', nulChar] : Str), c.toNat < 256 := by decide
+
+/-! ## integers -/
+
+/-- every 64-bit value written with `%PRId64` (including `INT64_MIN`, which goes through the
+wrap-around of `strtoul` on a minus sign) is read back as the same 64 bits -/
+theorem int_roundtrip (v : BitVec 64) (d : Char) (rest : List Char) (hd : isDelim d = true) :
+    lexOne (printI64 v ++ d :: rest) = .ok (.int v, d :: rest) :=
+  wordOK_i64 v d rest hd
+
+/-- a `uint` written with `%PRIu64` is read back with the same bits — but as an `int` token -/
+theorem uint_roundtrip_bits (v : BitVec 64) (d : Char) (rest : List Char) (hd : isDelim d = true) :
+    lexOne (printU64 v ++ d :: rest) = .ok (.int v, d :: rest) :=
+  wordOK_u64 v d rest hd
+
+/-- … so the text is stable exactly below 2^63 (finding #4) -/
+theorem uint_text_stable_iff (v : BitVec 64) : printI64 v = printU64 v ↔ v.toNat < 2 ^ 63 := by
+  unfold printI64 printU64
+  constructor
+  · intro h
+    by_cases hv : v.toNat < 2 ^ 63
+    · exact hv
+    · rw [if_neg hv] at h
+      obtain ⟨c, t, hc, _, hd⟩ := natDec_head v.toNat
+      rw [hc] at h
+      simp only [List.cons.injEq] at h
+      have := isDigit_iff.mp hd
+      rw [← h.1] at this
+      simp at this
+  · intro h; rw [if_pos h]
+
+example : isDelim ',' = true := by decide
+
+/-! ## names -/
+
+theorem name_roundtrip (n : Str) (h : nameOK n = true) (d : Char) (rest : List Char) (hd : isDelim d = true) :
+    lexOne (n ++ d :: rest) = .ok (.name n, d :: rest) :=
+  wordOK_name h d rest hd
+
+example : nameOK ['.', 'l', 'c', '1'] = true ∧ nameOK ['a', '$', '%'] = true ∧ nameOK ['1', 'a'] = false := by decide
+
+/-! ## operands and instructions (lexer + statement parser) -/
+
+/-- an operand: the written bytes lex to the token image, which parses to the raw operand -/
+theorem operand_roundtrip (o : Op) (h : lexOp o = true) (c : Nat) :
+    lexAll (flatten (ltOp o ++ [tNl])) = .ok (toks (ltOp o) ++ [.nl]) ∧
+    parseOperand (.insn c) (toks (ltOp o) ++ [.nl]) = .ok (some (ropOfOp o), [.nl]) := by
+  constructor
+  · have hv : AllValid (ltOp o ++ [tNl]) := AllValid.append (allValid_ltOp h) (AllValid.cons valid_tNl AllValid.nil)
+    have hok : okLT (ltOp o ++ [tNl]) = true := (OkD.appendC (okD_ltOp o) (by simp) (OkC.p _ _)).okLT
+    simpa [tNl, LT.toks] using lexAll_flatten _ hv hok
+  · exact parseOperand_op (plain_heads.2.2.2.2.2.2.2.2 c) o (Or.inr rfl) []
+
+/-- an instruction line: bytes → tokens → one raw statement -/
+theorem insn_roundtrip (c : Nat) (ops : List Op) (hc : codeOK c = true) (hops : ops.all lexOp = true) :
+    lexAll (printFItem (.insn c ops)) = .ok (toks (ltFItem (.insn c ops))) ∧
+    parseStmts (toks (ltFItem (.insn c ops))) = .ok [⟨[], .insn c, ops.map ropOfOp, false⟩] := by
+  have hcc := hc
+  simp only [codeOK, Bool.and_eq_true, decide_eq_true_eq] at hcc
+  constructor
+  · apply lexAll_flatten
+    · exact allValid_ltFItem (by simp [lexFItem, hcc.1.1.1.1.1, hcc.2, hops])
+    · exact (okC_ltFItem _).okLT
+  · have := body_lines [.insn c ops] [] (by simp [pFItem, hc]) (by simp [okTail])
+    have h2 := this []
+    simpa [stmtsOfBody, bodyLabelToks, parseStmts_nil, Except.map] using h2
+
+/-! ## whole texts -/
+
+/-- **C10** — for well-formed modules the scanner accepts the written text, rebuilds the normal form,
+and the normal form is written as the same bytes -/
+theorem text_roundtrip (ms : List Module) (h : WF ms = true) :
+    scanText (printText ms) = .ok (normText ms) ∧ printText (normText ms) = printText ms := by
+  have hlp := lex_p_modules ms 0 insnTable.length h
+  obtain ⟨st, h1, h2⟩ := elab_text ms h
+  constructor
+  · simp only [scanText, lexAll_printText ms hlp.1, parseStmts_text ms hlp.2, h1, h2]
+  · simp only [printText, normText, ltText_norm ms 0 insnTable.length h]
+
+/-- the statement of the property in the words of `properties.jsonl`: the re-read module prints to
+identical text again -/
+theorem text_roundtrip_fixpoint (ms : List Module) (h : WF ms = true) :
+    ∃ ms', scanText (printText ms) = .ok ms' ∧ printText ms' = printText ms :=
+  ⟨normText ms, (text_roundtrip ms h).1, (text_roundtrip ms h).2⟩
+
+/-- the writer model is defined on every item kind, `expr` included (the C writer is not: finding #3) -/
+theorem writer_total_expr (name : Option Str) (fn : Str) :
+    printItem (.expr name fn) = flatten (ltNameColon name) ++ '\t' :: kwExpr ++ '\t' :: fn ++ ['\n'] := by
+  simp [printItem, ltItem, flatten, LT.chars, ltName, tTab, tNl]
+
+/-! ## the hypothesis is satisfiable: a module with arguments (one block parameter), locals, a global
+tied to a hard register, labels, every operand form, data/bss/ref/lref/proto/import/export items -/
+
+def exFunc : Func :=
+  { name := ['f'], res := [.i64], args := [⟨.i64, ['a'], 0⟩, ⟨.blk1, ['b'], 16⟩], vararg := false,
+    locals := [(.i64, ['x']), (.d, ['y'])], globals := [(.i64, ['g'], ['r', '1', '2'])],
+    body := [.insn 0 [.reg ['x'], .uint 7],
+             .label 1,
+             .insn 0 [.reg ['x'], .mem ⟨.i32, 8, some ['a'], some ['x'], 4, some ['a', 'l'], none⟩],
+             .insn 2 [.reg ['y'], .dbl 0x3FF8000000000000],
+             .insn 128 [.label 2, .reg ['x'], .int 0],
+             .insn 118 [.label 1],
+             .label 2,
+             .insn 0 [.reg ['x'], .ref ['d', '1']],
+             .insn 0 [.reg ['x'], .str ['h', 'i', Char.ofNat 0]],
+             .insn 171 [.reg ['x']]] }
+
+def exMod : Module :=
+  { name := ['m'],
+    items := [.import ['p', 'r'], .bss (some ['d', '1']) 16, .data none .u8 [104, 0], .data (some ['e']) .d [0x3FF8000000000000],
+      .proto ['p'] [.i64] [⟨.p, ['q'], 0⟩] true, .func exFunc, .export ['f'], .ref (some ['r']) ['d', '1'] 8,
+      .lref none 1 (some 2) 4] }
+
+set_option maxRecDepth 100000 in
+example : WF [exMod] = true := by decide +kernel
+
+set_option maxRecDepth 100000 in
+example : ∃ ms', scanText (printText [exMod]) = .ok ms' ∧ printText ms' = printText [exMod] :=
+  text_roundtrip_fixpoint [exMod] (by decide +kernel)
+
+/-- the excluded points are really excluded: e.g. a `uint` ≥ 2^63 (finding #4) fails `WF` -/
+example : opOK [['x']] [] 0 1 (.uint (BitVec.ofNat 64 (2 ^ 63))) = false := by decide
+/-- … and so does a function whose body ends in a label (new finding) -/
+example : noTrailingLabel [.insn 171 [], .label 1] = false := by decide
+/-- … and a `ref` line right after a function ending in `jmp` (stale `insn_code`, new finding) -/
+example : notStaleLabel opJMP = false := by decide
+
+end TextIO
